@@ -200,7 +200,10 @@ def fam_time(seed, n_random, runs):
     rng = random.Random(seed * 15485863 + 4)
     MS = 1_000_000
     tl_menu = [0, 1, 999_999, MS, 2 * MS, 7 * MS + 500_000, 2_000 * MS, (2**31 - 2) * MS, (2**31 - 1) * MS,
-               (2**31) * MS, (2**31 + 5) * MS, 30 * 86_400_000 * MS]
+               (2**31) * MS, (2**31 + 5) * MS, 30 * 86_400_000 * MS,
+               # beyond 2^32 ms (49.7 days): any narrowing of the millisecond count shows
+               (2**32) * MS, (2**32 + 1) * MS, (2**32 + 300) * MS, 2 * (2**32) * MS + 7 * MS, 99 * 86_400_000 * MS,
+               1000 * 86_400_000 * MS]
     out = []
     # flood: the child refills faster than the parent drains; the limit must still be honoured
     for t, tl in enumerate([0, MS, 3 * MS, 50 * MS]):
@@ -216,6 +219,13 @@ def fam_time(seed, n_random, runs):
                         calls + [{}], runs=runs * 2))
         out.append(base("time-cin2-%s" % ("none" if tl is None else "5ms"), ["in"], 4096, 1, 3,
                         [["close", "in"], ["sleep", 2 * MS], ["exit"]], calls + [{}], runs=runs * 2))
+    # a child that answers after a while, under every limit of the menu (incl. the huge ones): the read must not
+    # report a timeout before the child's answer
+    for t, tl in enumerate(tl_menu[7:]):
+        for piped in (["out"], ["in", "out", "err"]):
+            out.append(base("time-huge%d-%s" % (t, "".join(x[0] for x in piped)), piped, 4096, 2, 2,
+                            [["sleep", 5_000 * MS], ["rd", 2], ["wr", "out", 1], ["sleep", 70_000 * MS], ["wr", "out", 2],
+                             ["rd", 1], ["exit"]], [{"tlim": tl}, {}], runs=max(1, runs // 2)))
     for j in range(n_random):
         piped = rng.choice(SUBSETS)
         unit = rng.choice([4096, 2048, 1024])
@@ -236,6 +246,6 @@ def fam_time(seed, n_random, runs):
                 calls.append({"tlim": rng.choice(tl_menu), "limit": rng.choice([1, k, 2 * k + 1])})
             else:
                 calls.append({})
-        calls += [{"tlim": 30 * 86_400_000 * MS}] * 2
+        calls += [{"tlim": 1000 * 86_400_000 * MS}] * 2
         out.append(base("time-rnd%d" % j, piped, unit, cap, inp, child, calls, runs=runs))
     return out
